@@ -189,6 +189,7 @@ let dispatch fn a =
         (x_random_bban (Lazy.force banks) (t 1) (b 2) pins (nat_of_int ci) (nat_of_int bi) draws)
     else
       out string_of_text (x_random_iban (Lazy.force banks) (t 1) (b 2) pins (nat_of_int ci) (nat_of_int bi) draws)
+  | "history_probe" -> "PROBE"
   | "spec_iso_ok" -> string_of_bool' (s_iso_ok (t 0))
   | "spec_check_digits" -> string_of_text (s_check_digits (t 0) (t 1))
   | "spec_conforms" -> string_of_bool' (s_conforms (t 0) (t 1))
